@@ -336,6 +336,10 @@ def install(eng):
     def v_reach(st, a): st.log.append(('reach', nm(st, a[0])))
     @model('verif_note')
     def v_note(st, a): st.log.append(('note', nm(st, a[0]), a[1]))
+    @model('verif_hook')
+    def v_hook(st, a):
+        h = getattr(eng, 'hooks', {}).get(nm(st, a[0]))
+        if h: h(st)
     @model('verif_fail')
     def v_fail(st, a): raise Bug('assert', nm(st, a[0]), eng._m(st))
     @model('verif_is_symbolic')
